@@ -210,7 +210,14 @@ func c06One(env *fw.Env, i int64) {
 			_ = c.Send(peer.RejectReq(f.Session, 0, rejectReason(tok), f.Sys))
 		case bCollidePrimary:
 			// a peer PRIMARY that happens to reuse the same system bytes, then the genuine reply
-			_ = c.Send(peer.Data(11, 3, fw.HashStr("w", tok)%2 == 0, f.Session, f.Sys, c06Body("P:"+tok)), reply)
+			// (a primary = odd function or W-bit set; every kind of it, the stream 9 error notices included, whose
+			// system bytes come from the peer's own generator and therefore collide as a matter of course)
+			shapes := []struct {
+				s, f byte
+				w    bool
+			}{{11, 3, true}, {11, 3, false}, {9, 1, false}, {9, 9, false}, {9, 13, false}, {9, 3, false}, {5, 1, true}, {6, 11, false}, {1, 2, true}, {9, 7, true}}
+			sh := shapes[fw.HashStr("w", tok)%uint64(len(shapes))]
+			_ = c.Send(peer.Data(sh.s, sh.f, sh.w, f.Session, f.Sys, c06Body("P:"+tok)), reply)
 		case bCollideControl:
 			var cf peer.Frame
 			switch fw.HashStr("c", tok) % 3 {
